@@ -8,6 +8,7 @@ mod core;
 mod eng_a;
 mod eng_b;
 mod eng_c;
+mod eng_d;
 mod json;
 mod prng;
 mod runner;
@@ -19,6 +20,7 @@ fn main() {
         Some("check") => runner::cmd_check(&args[2..]),
         Some("replay") => runner::cmd_replay(&args[2..]),
         Some("hashes") => runner::cmd_hashes(&args[2..]),
+        Some("shrink") => runner::cmd_shrink(&args[2..]),
         _ => {
             eprintln!("usage: renet-sim check <Cxx> [--tier quick|thorough] | replay <file> | hashes <engine> <family> <from> <count>");
             2
